@@ -56,6 +56,13 @@ theorem value_matches (cfg : Cfg) (pre : Option Elite) (c : Cand) :
   show c.obj - baseline cfg pre = _
   ring
 
+/-- the same value on the batch path (`batch_entries_with_threshold`) -/
+theorem batch_value_matches (cfg : Cfg) (pre : Option Elite) (c : Cand) :
+    (judge cfg pre c).2 = GenF.batchValue (baseline cfg pre) c.obj := by
+  unfold judge GenF.batchValue
+  show c.obj - baseline cfg pre = _
+  ring
+
 /-- **G06 `stats_match`** (C06): the derived statistics of `_stats_update` -/
 theorem stats_match (a : Arch) :
     a.qdScore = GenF.qdScore a.stats.objSum (a.stats.numElites : Rat) a.cfg.offset ∧
